@@ -114,7 +114,7 @@ def gen_cases(ctx, wd, n_random, tag="g"):
     return cases
 
 
-def run_case(exe, case, outdir, variant):
+def run_case(exe, case, outdir, variant, timeout=240):
     env = dict(os.environ)
     if variant == "tsan":
         env["TSAN_OPTIONS"] = TSAN_OPTS
@@ -125,10 +125,10 @@ def run_case(exe, case, outdir, variant):
     t0 = time.time()
     try:
         p = subprocess.run(cmd, input=case.line(outdir) + "\n", env=env, stdout=subprocess.PIPE, stderr=subprocess.PIPE,
-                           timeout=150, universal_newlines=True, errors="replace")
+                           timeout=timeout, universal_newlines=True, errors="replace")
         rc, out, err = p.returncode, p.stdout, p.stderr
     except subprocess.TimeoutExpired as ex:
-        rc, out, err = 124, (ex.stdout or b"").decode("utf-8", "replace") if isinstance(ex.stdout, bytes) else (ex.stdout or ""), "[timeout after 150 s]"
+        rc, out, err = 124, (ex.stdout or b"").decode("utf-8", "replace") if isinstance(ex.stdout, bytes) else (ex.stdout or ""), "[timeout after %d s]" % timeout
     return {"rc": rc, "out": out, "err": err, "secs": time.time() - t0}
 
 
@@ -146,6 +146,11 @@ def evaluate(ctx, cases, wd, exes):
     par = max(2, core.NPROC // 4)
     with ThreadPoolExecutor(par) as ex:
         results = list(ex.map(lambda j: run_case(exes[j[1]], j[0], os.path.join(wd, "res_" + j[1]), j[1]), jobs))
+    # a time-out under the parallel load is re-examined alone with a long limit before it counts as a hang
+    for i, ((c, v), res) in enumerate(zip(jobs, results)):
+        if res["rc"] == 124:
+            ctx.count("rerun-after-timeout")
+            results[i] = run_case(exes[v], c, os.path.join(wd, "res_" + v), v, timeout=1200)
     fails = []
     byc = {}
     for (c, v), res in zip(jobs, results):
@@ -162,7 +167,7 @@ def evaluate(ctx, cases, wd, exes):
             m = re.search(r"(?m)^%s (\w+) T=(\d+) R=(\d+) runs=(\d+) mismatches=(\d+) errors=(\d+) reflen=(\d+) refhash=(\w+) ?(.*)$" % re.escape(c.id), res["out"])
             known = "KT1" if in_class_KT1(c) else "KT2" if in_class_KT2(c) else None
             if res["rc"] == 124:
-                fails.append({"case": c, "variant": v, "kind": "hang", "what": "no result within 150 s", "known": known, "report": ""})
+                fails.append({"case": c, "variant": v, "kind": "hang", "what": "no result within 240 s under load nor within 1200 s alone", "known": known, "report": ""})
                 continue
             if not m:
                 fails.append({"case": c, "variant": v, "kind": "crash", "what": "driver exited with status %d without a result line: %s" % (res["rc"], res["err"][-600:]),
@@ -228,7 +233,7 @@ def run(ctx):
             return ctx.finish(LEVEL)
         exes[v] = exe
     wd = make_workdir(ctx)
-    n = 14 if not ctx.thorough else 160
+    n = 14 if not ctx.thorough else 220
     cases = gen_cases(ctx, wd, n)
     ctx.cov["samples"] = [c.line("<outdir>") for c in cases[:3] + cases[6:9]]
     fails = evaluate(ctx, cases, wd, exes)
